@@ -919,3 +919,70 @@ Lemma gen_executePlugin_nil plugin caps envelope ids cfg :
 Proof. intros HP. unfold gen_verifier_executePlugin. rewrite HP. eexists. reflexivity. Qed.
 
 End Exec.
+
+(* ====================================================================== *)
+(* 8. stages of VerifyCore on the generated functions                      *)
+(* ====================================================================== *)
+
+(* The revocation stage of VerifyCore.native
+       revocationResult := v.verifyRevocation(ctx, outcome); ...; if isCriticalFailure(revocationResult) { return }
+   on the code's own two functions: the reported result is the model's
+   [mk_res TRev (l_rev lvl) (negb s_rev_ok)] and the early exit is the model's [is_critical_failure]. *)
+Lemma gen_revocation_stage (C : Type) (subjs : C -> string) ast (PM : Type) (v : verifier_verifier C PM) outcome o env lvl b :
+  ptr_val outcome = Some o ->
+  ptr_val (VerificationOutcome_EnvelopeContent C o) = Some env ->
+  ptr_val (VerificationOutcome_VerificationLevel C o) = Some lvl ->
+  (rev_ok_of C ast PM v env <-> b = true) ->            (* b = s_rev_ok of the scenario *)
+  exists r, gen_verifier_verifier_verifyRevocation C subjs ast PM v outcome = Some (PNew r)
+            /\ ValidationResult_Type r = "revocation"
+            /\ vr_action r = l_rev (glevel_of lvl) /\ vr_failed r = negb b
+            /\ gen_verifier_isCriticalFailure r = is_critical_failure (l_rev (glevel_of lvl)) (negb b).
+Proof.
+  intros HO HE HL HB.
+  destruct (gen_verifyRevocation_spec C subjs ast PM v outcome o env lvl HO HE HL) as (r & E & T & A & ER).
+  exists r. split; [exact E|]. split; [exact T|].
+  assert (VA : vr_action r = l_rev (glevel_of lvl)) by (unfold vr_action; rewrite A; reflexivity).
+  assert (VF : vr_failed r = negb b).
+  { unfold vr_failed. destruct b.
+    - assert (N : ValidationResult_Error r = None) by (apply ER, HB; reflexivity). rewrite N. reflexivity.
+    - destruct (ValidationResult_Error r) as [e|] eqn:EE; [reflexivity|]. exfalso.
+      assert (R : rev_ok_of C ast PM v env) by (apply ER; reflexivity). apply HB in R. discriminate. }
+  split; [exact VA|]. split; [exact VF|]. rewrite gen_isCriticalFailure_equiv, VA, VF. reflexivity.
+Qed.
+
+(* The version gate of VerifyCore.lookup_plugin on the code's own two functions: a scenario whose
+   version facts are what the generated IsValid / isRequiredVerificationPluginVer answer *)
+Lemma gen_version_gate gcmp : compare_agrees gcmp -> compare_range gcmp ->
+  forall version min caps,
+    match min with VerifyCore.AStr m => sv_valid m = true | AAbsent => True | _ => False end ->
+    PMPlugin (gen_semver_IsValid version)
+             (gen_semver_IsValid version && gen_verifier_isRequiredVerificationPluginVer gcmp version (minver_string min)) caps
+    = PMPlugin (sv_valid version) (sv_valid version && ver_ge version min) caps.
+Proof.
+  intros HA HR version min caps M. rewrite gen_IsValid_equiv.
+  destruct (sv_valid version) eqn:V; [|reflexivity]. cbn [andb].
+  now rewrite (gen_isRequired_equiv gcmp HA HR version min V M).
+Qed.
+
+(* transported C02_too_old_rejects: when the code's own version test says "too old", the model
+   rejects the signature as inconclusive right after integrity, whatever the level *)
+Lemma gen_too_old_rejects gcmp : compare_agrees gcmp -> compare_range gcmp ->
+  forall lvl sc version caps n m,
+  s_integrity_ok sc = true -> s_nonstring_crit sc = false ->
+  s_plugin_attr sc = VerifyCore.AStr n -> blank n = false ->
+  s_minver_attr sc = VerifyCore.AStr m -> blank m = false -> gen_semver_IsValid m = true ->
+  gen_semver_IsValid version = true ->
+  gen_verifier_isRequiredVerificationPluginVer gcmp version m = false ->
+  verify_core lvl (versioned sc version caps)
+  = mk_obs EInconclusive [mk_res TIntegrity Enforce false] false [n] None.
+Proof.
+  intros HA HR lvl sc version caps n m IO NS PA BN MA BM VM VV TO.
+  rewrite gen_IsValid_equiv in VM, VV.
+  assert (GE : ver_ge version (VerifyCore.AStr m) = false).
+  { rewrite <- (gen_isRequired_equiv gcmp HA HR version (VerifyCore.AStr m) VV VM). exact TO. }
+  unfold verify_core, process_signature, process_signature_gen, versioned, plugin_of, minver_valid_of.
+  cbn [s_integrity_ok]. rewrite IO. cbn [negb].
+  unfold discover, lookup_plugin, minver_error.
+  cbn [s_plugin_attr s_minver_attr s_minver_valid s_nonstring_crit s_pm].
+  rewrite PA, BN, NS, MA, BM, VM, VV, GE. reflexivity.
+Qed.
